@@ -291,6 +291,12 @@ def f_if(c, t, e):
     return Fm(f'IF({c.text},{t.text},{e.text})', f'( if {c.wire} {t.wire} {e.wire} )', c.ranges + t.ranges + e.ranges)
 
 
+def f_sc(kind, *args):
+    """AND / OR (kind = 'and' | 'or'): lazy, left to right; a range argument is flattened (the model: `Fx.sc`)"""
+    return Fm(kind.upper() + '(' + ','.join(a.text for a in args) + ')', f'( {kind} ' + ' '.join(a.wire for a in args) + ' )',
+              sum((a.ranges for a in args), ()))
+
+
 FAILS = {
     'unknown': Fm('NOSUCHFN(1)', '( fail 20 ( lit I:1 ) )'),   # KeyError('NOSUCHFN') before any argument
     'valueerror': Fm('BOOMVE()', '( app 21 )'),                 # a function body raising ValueError('boom')
@@ -446,7 +452,11 @@ def graph_cells(mask, n, mode, layout='col'):
     """render a graph: vertex i is cell A{i+1} (layout col) or the i-th cell of A1:B2/A1:C2 (layout grid);
     a vertex without successors is the constant i+1.
     mode refs: =A2+A3 ; ranges: maximal runs of consecutive successors become SUM(A2:A3) ; repeat: the first
-    successor is referenced once more at the end ; grid: successors = all cells -> SUM(A1:B2)"""
+    successor is referenced once more at the end ; grid: successors = all cells -> SUM(A1:B2) ;
+    andor: the successors (maximal runs as bare RANGE arguments, the others as references) are the arguments of
+    AND (even vertices) / OR (odd vertices), the constants are (i+1) mod 3 — zeros and non-zeros, so a range
+    argument may decide and the arguments behind it (possibly closing a cycle) are then not evaluated: not a strict
+    model, compared with the Lean model only"""
     sheet = 'Sheet1'
     if layout == 'col':
         names = [f'{sheet}!A{i + 1}' for i in range(n)]
@@ -459,9 +469,23 @@ def graph_cells(mask, n, mode, layout='col'):
     for i in range(n):
         s = succ(mask, n, i)
         if not s:
-            cells[names[i]] = i + 1
+            cells[names[i]] = (i + 1) % 3 if mode == 'andor' else i + 1
             continue
         parts = []
+        if mode == 'andor':
+            k = 0
+            while k < len(s):
+                e = k
+                while e + 1 < len(s) and s[e + 1] == s[e] + 1:
+                    e += 1
+                if e > k:
+                    parts.append(f_rng(f'{sheet}!A{s[k] + 1}:A{s[e] + 1}', sheet))
+                    used_range = True
+                else:
+                    parts.append(f_ref(names[s[k]], sheet))
+                k = e + 1
+            cells[names[i]] = f_sc('or' if i % 2 else 'and', *parts)
+            continue
         if mode == 'ranges' and layout == 'col':
             k = 0
             while k < len(s):
@@ -498,6 +522,8 @@ def graph_jobs(masks, n, modes, tag):
             layout = 'grid' if mode == 'grid' else 'col'
             cells, names, used = graph_cells(mask, n, 'ranges' if mode == 'grid' else mode, layout)
             if mode in ('ranges', 'grid') and not used:
+                continue
+            if mode == 'andor' and mask == 0:
                 continue
             if mode == 'repeat' and mask == 0:
                 continue
@@ -666,6 +692,25 @@ def special_jobs():
     jobs.append(make_job('lazy-unselected', {A(1): f_if(f_bool(True), f_num(1), f_ref(A(1), S))},
                          {'kind': 'special', 'acyclic': False, 'strict': False, 'lazy_value': True, 'entries': [A(1)],
                           'what': 'IF(TRUE,1,A1): self reference in the unselected branch'}))
+    # lazy AND / OR over a RANGE argument: the range decides, the self reference behind it is not evaluated
+    # (short-circuiting is C10's matter: here these are compared with the Lean model only)
+    jobs.append(make_job('lazy-and-range', {A(1): f_sc('and', f_rng(f'{S}!A2:A4', S), f_ref(A(1), S)),
+                                            A(2): 1, A(3): 0, A(4): 2},
+                         {'kind': 'special', 'acyclic': False, 'strict': False, 'lazy_sc': True, 'entries': [A(1)],
+                          'what': 'AND(A2:A4,A1) with a zero in the range: self reference in an argument that is not evaluated'}))
+    jobs.append(make_job('lazy-or-range', {A(1): f_sc('or', f_rng(f'{S}!A2:A4', S), f_ref(A(1), S)),
+                                           A(2): 0, A(3): 0, A(4): 2},
+                         {'kind': 'special', 'acyclic': False, 'strict': False, 'lazy_sc': True, 'entries': [A(1)],
+                          'what': 'OR(A2:A4,A1) with a non-zero in the range: self reference in an argument that is not evaluated'}))
+    jobs.append(make_job('and-range-neutral', {A(1): f_sc('and', f_rng(f'{S}!A2:A4', S), f_ref(A(1), S)),
+                                               A(2): 1, A(3): 3, A(4): 2},
+                         {'kind': 'special', 'acyclic': False, 'strict': False, 'lazy_cycle': True, 'entries': [A(1)],
+                          'what': 'AND(A2:A4,A1) over non-zeros: the self reference IS evaluated'}))
+    jobs.append(make_job('and-range-cycle-inside', {A(1): f_sc('and', f_rng(f'{S}!A2:A4', S), f_num(1)),
+                                                    A(2): 0, A(3): f_ref(A(1), S), A(4): 2},
+                         {'kind': 'special', 'acyclic': False, 'strict': False, 'lazy_cycle': True, 'entries': [A(1), A(3)],
+                          'what': 'AND(A2:A4,1): the whole range is evaluated before its items are judged - the cycle through '
+                                  'A3 is found although A2 = 0 precedes it'}))
     jobs.append(make_job('lazy-selected', {A(1): f_if(f_bool(False), f_num(1), f_ref(A(1), S))},
                          {'kind': 'special', 'acyclic': False, 'strict': False, 'lazy_cycle': True, 'entries': [A(1)],
                           'what': 'IF(FALSE,1,A1): self reference in the selected branch'}))
@@ -883,7 +928,9 @@ def run(ctx):
     res.rule = ('every directed graph (self loops included) on 1..3 cells with every labelling, on 4 cells up to '
                 'isomorphism (thorough/widened: every labelling on 4 cells, and 5 cells up to isomorphism), every cell '
                 'as entry point; rendered as sums of references, with maximal runs of consecutive successors as '
-                'SUM(range), with a repeated reference, and in a 2-D grid with SUM(A1:B2); chains of depth 1..60 ending '
+                'SUM(range), with a repeated reference, in a 2-D grid with SUM(A1:B2), and (graphs on <= 4 cells) as lazy '
+                'AND / OR over references and bare RANGE arguments with zero / non-zero constants (compared with the Lean '
+                'model, whose Fx.sc flattens range arguments); chains of depth 1..60 ending '
                 'in an unknown function / a function raising ValueError / RuntimeError / a self reference / a reference '
                 'back to the top or the middle / a value / a RuntimeError SUBCLASS (NotImplementedError from a registered function and from '
                 'the library\'s approximate VLOOKUP, a custom subclass, RecursionError), over one and three sheets; chains of 130..400 '
@@ -912,7 +959,7 @@ def run(ctx):
         yield chain_hist_jobs(hdepths, ['unknown', 'valueerror', 'runtimeerror', 'notimplemented', 'subclass',
                                         'recursionerror', 'vlookup', 'switch', 'self', 'back-to-middle', 'value'])
         for n in (1, 2, 3):
-            yield graph_jobs(range(1 << (n * n)), n, modes, 'g')
+            yield graph_jobs(range(1 << (n * n)), n, modes + ['andor'], 'g')
             yield graph_hist_jobs(range(1 << (n * n)), n, 'g')
         # acyclic sharing in bulk: every graph whose edges go from a lower to a higher cell (all DAGs up to
         # relabelling)
@@ -929,7 +976,7 @@ def run(ctx):
             yield graph_jobs(dags[k:k + 8192], nd, modes, 'dag')
         if wide:
             for k in range(0, 1 << 16, 8192):
-                yield graph_jobs(range(k, k + 8192), 4, modes + ['grid'], 'g')
+                yield graph_jobs(range(k, k + 8192), 4, modes + ['grid', 'andor'], 'g')
                 yield graph_hist_jobs(range(k, k + 8192), 4, 'g')
             reps5 = [int(x) for x in canonical_reps(5)]
             res.count('graphs5_up_to_isomorphism', len(reps5))
@@ -938,7 +985,7 @@ def run(ctx):
         else:
             reps4 = [int(x) for x in canonical_reps(4)]
             res.count('graphs4_up_to_isomorphism', len(reps4))
-            yield graph_jobs(reps4, 4, modes + ['grid'], 'g')
+            yield graph_jobs(reps4, 4, modes + ['grid', 'andor'], 'g')
             yield graph_hist_jobs(reps4, 4, 'g')
 
     complete = run_corpus(ctx, res, workers)
